@@ -19,7 +19,7 @@ pub open spec fn acov_def(ts: Seq<f64>, k: int) -> real {
     (1real / (n as real)) * rlag(ts, m, iabs(k), n - iabs(k))
 }
 pub proof fn lemma_lag_sum(v: Seq<f64>, ts: Seq<f64>, m: f64, lag: int, k: int)
-    requires 0 <= k <= v.len(), 0 <= lag, lag + v.len() <= ts.len(),
+    requires 0 <= k <= v.len(), 0 <= lag, v.len() > 0 ==> lag + v.len() <= ts.len(),
              forall|j: int| 0 <= j < v.len() ==> #[trigger] v[j] == f_mul(f_sub(ts[lag + j], m), f_sub(ts[j], m))
     ensures rsum(v, k) == rlag(ts, rv(m), lag, k)
     decreases k
@@ -30,7 +30,7 @@ pub proof fn lemma_lag_sum(v: Seq<f64>, ts: Seq<f64>, m: f64, lag: int, k: int)
 NRA = [Lemma('nra_mean_value', 'n s m', ['(> n 0)', '(= (* n m) s)'], ['(= m (/ s n))'])]
 
 MACH = 'C13.machine:: 0 < ts@.len() < 0x7fff_ffff && -0x7fff_ffff < k < 0x7fff_ffff'
-acovf = Fn(T + 'acovf', ret='r', level='L1', requires=[MACH, 'C13.lag:: iabs(k as int) <= ts@.len()'],
+acovf = Fn(T + 'acovf', ret='r', level='L1', requires=[MACH],
            ensures=['C13.acovf.def:: rv(r) == acov_def(ts@, k as int)'],
            rewrites=[('(k.abs() as usize..n).into_iter().map(|i|', '({ let prods_: Vec<f64> = (k.abs() as usize..n).into_iter().map(|i|', 'R6b: bind the collected products of `.map(..).sum()`'),
                      ('.sum::<f64>()', '.collect::<Vec<f64>>(); let ghost pv_ = prods_@; let tot_ = vsum(prods_); '
@@ -64,7 +64,7 @@ pub proof fn lemma_lag0(ts: Seq<f64>, m: real, k: int) requires 0 <= k ensures r
 '''
 NRA2 = [Lemma('nra_div_nonzero', 'n b', ['(> n 0)', '(distinct b 0)'], ['(distinct (/ b n) 0)']),
         Lemma('nra_ratio', 'n b', ['(> n 0)'], ['(= (/ b n) (* (/ 1 n) b))'])]
-acf = Fn(T + 'acf', ret='r', level='L1', requires=[MACH, 'C13.lag:: iabs(k as int) <= ts@.len()'],
+acf = Fn(T + 'acf', ret='r', level='L1', requires=[MACH],
          ensures=['C13.acf.ratio:: acov_def(ts@, 0) != 0real ==> rv(r) == acov_def(ts@, k as int) / acov_def(ts@, 0)'],
          rewrites=[('(k.abs() as usize..n).into_iter().map(|i|', '({ let prods_: Vec<f64> = (k.abs() as usize..n).into_iter().map(|i|', 'R6b: bind the collected products of `.map(..).sum()`'),
                    ('(ts[i - k.abs() as usize] - ts_mean)).sum::<f64>()', '(ts[i - k.abs() as usize] - ts_mean)).collect::<Vec<f64>>(); let ghost pv_ = prods_@; let tot_ = vsum(prods_); '
